@@ -59,6 +59,7 @@ class Report:
         self.prop, self.tier, self.seed, self.level = prop, tier, seed, level
         self.t0 = time.time()
         self.violations = []     # dicts: signature, detail, replay
+        self._sigs = set()
         self.known = {}          # kf id -> count
         self.drift = []
         self.notes = []
@@ -74,7 +75,9 @@ class Report:
             self.known[kf] = self.known.get(kf, 0) + 1
             return
         path = None
-        if replay_obj is not None and len(self.violations) < 20:
+        first_of_kind = signature not in self._sigs
+        self._sigs.add(signature)
+        if replay_obj is not None and (len(self.violations) < 10 or (first_of_kind and len(self._sigs) < 40)):
             path = save_replay(self.prop, signature, replay_obj)
         if len(self.violations) < 200:
             self.violations.append({"signature": signature, "detail": detail, "replay": path})
